@@ -304,6 +304,10 @@ class HostileRun:
             # (every broadcast of that kind goes to every member: quadratic work; the 300-member versions are
             # deterministic cases with their own wall limit)
             n = min(n, 40 if same == C.ALL_MESSAGE_TYPES else 101)
+        if n > 120:
+            # (with hundreds of connections and an expensive write the periodic sweeps would be due again as soon as
+            # they end: every round would be a sweep)
+            self.w.write_cost = min(self.w.write_cost, 2e-5)
         group = []
         for i in range(n):
             a = Actor(self.w, f"b{self.n_act}")
